@@ -1,13 +1,38 @@
-(* C01 — No double spend
-   Statements only; every proof is `exact <lemma>` into Mint/*.v (model: Mint/Model.v, semantics: Mint/Sem.v). *)
+(* C01 - No double spend: an ecash proof is redeemed at most once, ever
+   Statements only; every proof is `exact <lemma>` into coq/Mint/*.v.
+
+   Reading guide (definitions in coq/Mint/*.v):
+     world            = store (tables spent/pending/signatures/mint quotes/melt quotes/keysets) + Lightning environment
+                        (invoices, scripted answers, log of pay calls) + the process memory (keysets, active keyset)
+     op               = one request (OSwap, OMint, OMelt, OMeltQuote, OMintQuote, OMintState, OMeltState, OCheck, ORestore,
+                        ORotate, ORestart, OWatcher, OBalance, OInfo) or environment step (ESettle, EScriptPay/Look, ...)
+     op_prog          = the request as a program over storage/Lightning calls, following mint/mint.go call by call
+     run p f w        = run program p from world w; f: which call positions get an injected storage error (no_fault: none)
+     run_n n p f w    = the same, but the process dies after n calls
+     step cfg f w o   = one request run to completion; run_history / reach: a sequential fault-free history from the empty store
+     hrun cfg w h     = a history of items: HNormal o | HFault o f | HCrash o n | HConc ops schedule (interleaving at call granularity)
+     WInv w           = every table has unique keys (Y, B_, quote ids, keyset ids)
+     Good w           = WInv w and no Y is both spent and pending
+     wext w w'        = spent and signature tables of w' extend those of w (nothing removed or altered)
+     same_but_calls   = nothing changed but the call counter
+     settled w h      = the backend reports the own invoice with payment hash h as settled
+
+   at_most_once: over every sequential history, the secrets consumed by successful swaps and PAID melts are pairwise distinct.
+   hrun_inv / hrun_ext / spent_stays_refused hold for EVERY history item kind (faults, crashes, schedules).
+   Concurrent swap||melt on one proof is NOT safe in the code (known finding, reproduced by the c01-sched stream and by the model).
+*)
 From Coq Require Import ZArith List Bool.
-From Verif Require Import Model Sem InvDb InvSwap InvMint InvMelt Corollaries Queries Footprint Global GlobalQuote Cuts.
+From Verif Require Import Model Sem InvDb InvSwap InvMint InvMelt Corollaries Queries Footprint HRel Global GlobalQuote GlobalValue GlobalErr GlobalQuery GlobalMelt GlobalKeys Cuts.
 Import ListNotations.
 Open Scope Z_scope.
 
 Theorem C01_hrun_inv : forall (cfg : config) (h : list hitem) (w : world), WInv w -> WInv (hrun cfg w h).
 Proof. exact @hrun_inv. Qed.
 Print Assumptions C01_hrun_inv.
+
+Theorem C01_hrun_ext : forall (cfg : config) (h : list hitem) (w : world), wext w (hrun cfg w h).
+Proof. exact @hrun_ext. Qed.
+Print Assumptions C01_hrun_ext.
 
 Theorem C01_spent_once : forall (cfg : config) (ps : list prow) (d d' : db) (h : list hitem) (w : world) (y : Z) (ps' : list prow),
        exec_db (SaveProofs ps) d = (d', ROk tt) ->
@@ -25,6 +50,20 @@ Theorem C01_state_of_spent_forever : forall (cfg : config) (w : world) (h : list
        WInv w -> In y (ys_of (d_spent (w_db w))) -> exists wit : Z, state_of (w_db (hrun cfg w h)) y = (y, 2, wit).
 Proof. exact @state_of_spent_forever. Qed.
 Print Assumptions C01_state_of_spent_forever.
+
+Theorem C01_spent_stays_refused : forall (cfg : config) (h : list hitem) (w : world) (ins : list proof) (outs : list bmsg) (sg : bool),
+       WInv w ->
+       (exists p : proof, In p ins /\ In (p_secret p) (ys_of (d_spent (w_db w)))) ->
+       let w' := hrun cfg w h in
+       (exists (w'' : world) (e : err),
+          run (swap (w_mem w') (w_active w') ins outs sg) no_fault w' = (w'', Done (Err e)) /\
+          same_but_calls w' w'') /\
+       (forall id : Z,
+        exists (w'' : world) (e : err),
+          run (melt_tokens cfg (w_mem w') id ins) no_fault w' = (w'', Done (Err e)) /\
+          w_db w'' = w_db w' /\ w_ln w'' = w_ln w').
+Proof. exact @spent_stays_refused. Qed.
+Print Assumptions C01_spent_stays_refused.
 
 Theorem C01_reach_good : forall (cfg : config) (h : list op), Good (reach cfg h).
 Proof. exact @reach_good. Qed.
@@ -69,7 +108,8 @@ Theorem C01_melt_rejects_represented : forall (cfg : config) (mem_ks : list ksro
        (exists p : proof,
           In p ins /\ (In (p_secret p) (ys_of (d_spent (w_db w))) \/ In (p_secret p) (ys_of (d_pending (w_db w))))) ->
        exists (w' : world) (e : err),
-         run (melt_tokens cfg mem_ks id ins) no_fault w = (w', Done (Err e)) /\ w_db w' = w_db w /\ w_ln w' = w_ln w.
+         run (melt_tokens cfg mem_ks id ins) no_fault w = (w', Done (Err e)) /\
+         w_db w' = w_db w /\ w_ln w' = w_ln w.
 Proof. exact @melt_rejects_represented. Qed.
 Print Assumptions C01_melt_rejects_represented.
 
